@@ -131,7 +131,9 @@ pub fn check_reask(case: &str) -> Result<(), String> {
 
 // ---- C03 ----------------------------------------------------------------------------------------------------------
 const PRES: &[&str] = &["1 = 1", "$X = a", "$X = c", "$X = 2", "$Y = $X"];
-const GOALS: &[&str] = &["p(a)", "p(c)", "p($X)", "e($X)", "q", "q2", "w", "x($X)", "$X = a", "$X == 2", "t($X)", "s($X)", "nothing($X)", "not(p($X))", "y($X, $Y)", "n1($X)"];
+const GOALS: &[&str] = &["p(a)", "p(c)", "p($X)", "e($X)", "q", "q2", "w", "x($X)", "$X = a", "$X == 2", "t($X)", "s($X)", "nothing($X)", "not(p($X))", "y($X, $Y)", "n1($X)",
+    // comparisons that cannot be carried out (an operand unbound, an atom against a number) have no answer: not() of them succeeds
+    "$X < 2", "$X >= 2", "$X > $Y", "$X <= $Z", "$X < b", "3 > $X", "$X == $Z"];
 
 pub fn enum_not(_seed: u64) -> Vec<String> {
     let mut out = vec![];
@@ -276,8 +278,9 @@ fn rand_literal(r: &mut Rng, level: usize, vars: &[&str], cuts: bool, depth: usi
     match r.below(20) {
         0..=8 => rand_call(r, level, vars),
         9 | 10 => format!("{} = {}", vars[r.below(vars.len())], rand_arg(r, vars)),
-        11 => format!("{} == {}", vars[r.below(vars.len())], CONSTS[r.below(CONSTS.len())]),
-        12 | 13 => format!("not({})", rand_call(r, level, vars)),
+        11 => format!("{} {} {}", vars[r.below(vars.len())], ["==", "<", ">=", ">", "<="][r.below(5)], if r.below(3) == 0 { vars[r.below(vars.len())].to_string() } else { CONSTS[r.below(CONSTS.len())].to_string() }),
+        12 => format!("not({})", rand_call(r, level, vars)),
+        13 => if r.below(3) == 0 { format!("not({} {} {})", vars[r.below(vars.len())], ["==", "<", ">=", ">", "<="][r.below(5)], CONSTS[r.below(CONSTS.len())]) } else { format!("not({})", rand_call(r, level, vars)) },
         14 => if cuts { "!".to_string() } else { rand_call(r, level, vars) },
         15 => "fail".to_string(),
         16 | 17 => format!("print(<%s>, {})", vars[r.below(vars.len())]),
